@@ -8,7 +8,7 @@
       version flag and every pair of value lists.
    4. the serve loop: a request whose connectionClose flag is set is the last one dispatched; dispatched
       requests are contiguous in the stream. *)
-From FH Require Import Model.Base Gen.GenC01 Gen.GenC09 Gen.GenC32 Model.ByteClassModel Model.Lines Model.ReqHead Model.Body Model.Framing Spec.Rfc9112.
+From FH Require Import Model.Base Gen.GenC01 Gen.GenC09 Gen.GenC30 Gen.GenC32 Model.ByteClassModel Model.Lines Model.ReqHead Model.Body Model.Framing Spec.Rfc9112.
 From FH Require Model.Uri Model.Multipart Model.Ints Spec.IntsSpec Proof.IntsProof Proof.BodyProof Spec.HeadSpec Proof.LinesProof Proof.HeadTotalProof.
 From Coq Require Import Lia ZifyBool ZifyN ZifyNat.
 Open Scope nat_scope.
@@ -1040,4 +1040,147 @@ Proof.
     split; [|exact Hbody].
     assert (E : length (skipn (dp_off d + dp_len d) s) = length (skipn (N.to_nat k) (skipn (dp_off d + dp_hlen d) s))) by (now rewrite Hr).
     rewrite !skipn_length in E. rewrite skipn_length in Hk. lia.
+Qed.
+
+(* ================= chunked bodies against RFC 9112 section 7.1 ================= *)
+(* ---------- hex digits: IntsSpec (Z) and Rfc9112 (N) agree ---------- *)
+Definition hexd (c : N) : N := match Rfc9112.hexdigit c with Some x => x | None => 0%N end.
+Fixpoint hexN (d : bytes) (acc : N) : N := match d with [] => acc | c :: r => hexN r (16 * acc + hexd c)%N end.
+
+Lemma hexdig_agree c : IntsSpec.hexdig c = option_map Z.of_N (Rfc9112.hexdigit c).
+Proof.
+  unfold IntsSpec.hexdig, Rfc9112.hexdigit, Rfc9112.is_digit.
+  destruct ((48 <=? c)%N && (c <=? 57)%N) eqn:E1; [cbn; f_equal; lia|].
+  destruct ((97 <=? c)%N && (c <=? 102)%N) eqn:E2; [cbn; f_equal; lia|].
+  destruct ((65 <=? c)%N && (c <=? 70)%N) eqn:E3; [cbn; f_equal; lia|reflexivity].
+Qed.
+
+Lemma span_hex_agree s : forall acc cnt,
+  Rfc9112.span_hex s acc cnt =
+  (hexN (fst (IntsSpec.span_hex s)) acc, cnt + length (fst (IntsSpec.span_hex s)), snd (IntsSpec.span_hex s)).
+Proof.
+  induction s as [|c s IH]; intros acc cnt; cbn [Rfc9112.span_hex IntsSpec.span_hex].
+  - cbn. f_equal. f_equal. lia.
+  - unfold IntsSpec.is_hexdig. rewrite hexdig_agree. destruct (Rfc9112.hexdigit c) as [x|] eqn:E; cbn [option_map].
+    + rewrite IH. destruct (IntsSpec.span_hex s) as [d r]. cbn [fst snd hexN length]. unfold hexd. rewrite E.
+      f_equal. f_equal. lia.
+    + cbn. f_equal. f_equal. lia.
+Qed.
+
+Lemma hex_value_agree d : forall acc, forallb IntsSpec.is_hexdig d = true ->
+  fold_left (fun a c => (16 * a + match IntsSpec.hexdig c with Some x => x | None => 0 end)%Z) d (Z.of_N acc) = Z.of_N (hexN d acc).
+Proof.
+  induction d as [|c d IH]; intros acc H; [reflexivity|].
+  cbn [forallb] in H. apply andb_true_iff in H as [Hc Hd]. cbn [fold_left hexN].
+  rewrite <- IH by exact Hd. f_equal. unfold hexd. rewrite hexdig_agree.
+  destruct (Rfc9112.hexdigit c); cbn [option_map]; lia.
+Qed.
+
+Lemma span_hex_digits s : forallb IntsSpec.is_hexdig (fst (IntsSpec.span_hex s)) = true.
+Proof.
+  induction s as [|c s IH]; [reflexivity|]. cbn [IntsSpec.span_hex].
+  destruct (IntsSpec.is_hexdig c) eqn:E; [|reflexivity].
+  destruct (IntsSpec.span_hex s) as [d r]. cbn [fst forallb] in *. now rewrite E, IH.
+Qed.
+
+(* ---------- the chunk-size line ---------- *)
+Lemma pcs_ext : forall r0 e o r1 r2, pcs_loop r0 e o = Some r1 -> readCrLf r1 = Some r2 ->
+  ext_to_crlf r0 e = Some (Some r2).
+Proof.
+  induction r0 as [|c r IH]; intros e o r1 r2 H1 H2; cbn [pcs_loop] in H1; [discriminate|].
+  cbn [ext_to_crlf]. change 13%N with CR. change 10%N with LF.
+  destruct (N.eqb_spec c CR) as [->|Hcr].
+  - injection H1 as <-. cbn [readCrLf] in H2. rewrite N.eqb_refl in H2.
+    destruct r as [|d r']; [discriminate|]. destruct (N.eqb_spec d LF) as [->|]; [|discriminate].
+    injection H2 as <-. cbn. reflexivity.
+  - destruct (N.eqb_spec c LF) as [->|Hlf]; [discriminate|].
+    destruct e; [eapply IH; eauto|].
+    unfold Rfc9112.is_ows. change 32%N with SP. change 9%N with HT.
+    destruct ((c =? SP)%N || (c =? HT)%N); [eapply IH; eauto|].
+    change 59%N with SEMI. destruct (c =? SEMI)%N; [|discriminate]. destruct o; [discriminate|]. eapply IH; eauto.
+Qed.
+
+Lemma parseChunkSize_spec b n r : wf_bytes b -> parseChunkSize b = PCOk n r ->
+  exists nN cnt r0, Rfc9112.span_hex b 0 0 = (nN, S cnt, r0) /\ n = Z.of_N nN /\ ext_to_crlf r0 false = Some (Some r) /\ length r < length b.
+Proof.
+  intros Hwf H. pose proof (BodyProof.parseChunkSize_shrinks _ _ _ H) as Hsh. unfold parseChunkSize in H.
+  rewrite (IntsProof.readhex_exact 64 maxHexIntChars64 b (or_introl (conj eq_refl eq_refl)) Hwf) in H.
+  pose proof (span_hex_agree b 0%N 0) as Ha. pose proof (span_hex_digits b) as Hd.
+  destruct (IntsSpec.span_hex b) as [d r0] eqn:Es. cbn [fst snd] in *.
+  destruct d as [|c d]; [destruct b; discriminate|].
+  destruct (Z.of_nat (length (c :: d)) >? maxHexIntChars64)%Z; [discriminate|].
+  destruct (pcs_loop r0 false false) as [r1|] eqn:E1; [|discriminate].
+  destruct (readCrLf r1) as [r2|] eqn:E2; [|discriminate].
+  injection H as <- <-.
+  exists (hexN (c :: d) 0), (length d), r0. split; [exact Ha|]. split.
+  - unfold IntsSpec.hex_value. apply (hex_value_agree (c :: d) 0%N Hd).
+  - split; [eapply pcs_ext; eauto|lia].
+Qed.
+
+(* ---------- chunk data ---------- *)
+Lemma ends_crlf_split d : 2 <= length d -> ends_crlf d = true -> d = drop_last2 d ++ [CR; LF].
+Proof.
+  unfold ends_crlf, drop_last2. intros Hl H. apply beq_eq in H.
+  rewrite <- (firstn_skipn (length d - 2) d) at 1. now rewrite H.
+Qed.
+
+Lemma chunk_data dst r2 n d1 r' pk pk' : (0 < n)%Z ->
+  appendBodyFixedSize r2 dst (n + blen GenC34.strCRLF) pk = BOk d1 r' pk' -> ends_crlf d1 = true ->
+  Z.to_nat n <= length r2 /\ drop_last2 d1 = dst ++ firstn (Z.to_nat n) r2 /\
+  skipn (Z.to_nat n) r2 = CR :: LF :: r' /\ length r' < length r2.
+Proof.
+  intros Hn Ha He. apply BodyProof.appendBodyFixedSize_ok in Ha as (_ & Hle & -> & -> & _).
+  change (blen GenC34.strCRLF) with 2%Z in *. unfold blen, btake, bdrop in *.
+  remember (Z.to_nat n) as k eqn:Ek. assert (Ek2 : Z.to_nat (n + 2) = k + 2) by lia. rewrite Ek2 in *.
+  assert (Hk : k + 2 <= length r2) by lia.
+  assert (Hlen : length (firstn (k + 2) r2) = k + 2) by (rewrite firstn_length; lia).
+  assert (Hl2 : 2 <= length (dst ++ firstn (k + 2) r2)) by (rewrite app_length; lia).
+  pose proof (ends_crlf_split _ Hl2 He) as Hs.
+  assert (Hdl : drop_last2 (dst ++ firstn (k + 2) r2) = dst ++ firstn k r2).
+  { unfold drop_last2. rewrite app_length, Hlen. replace (length dst + (k + 2) - 2) with (length dst + k) by lia.
+    rewrite firstn_app. replace (length dst + k - length dst) with k by lia.
+    rewrite firstn_all2 by lia. f_equal. rewrite firstn_firstn. f_equal. lia. }
+  rewrite Hdl in Hs. rewrite <- app_assoc in Hs. apply app_inv_head in Hs.
+  split; [lia|]. split; [exact Hdl|]. split.
+  - rewrite <- (firstn_skipn (k + 2) r2) at 1. rewrite Hs, <- app_assoc.
+    rewrite skipn_app. rewrite skipn_all2 by (rewrite firstn_length; lia). rewrite firstn_length.
+    replace (k - Nat.min k (length r2)) with 0 by lia. reflexivity.
+  - rewrite skipn_length. lia.
+Qed.
+
+(* ---------- the chunk sequence: what readBodyChunked accepts, RFC 9112 section 7.1 accepts, with the same data and rest ---------- *)
+Lemma rbc_chunks : forall fuel max dst b pk d r pk', wf_bytes b ->
+  rbc_loop fuel max dst b pk = BOk d r pk' ->
+  forall fuel', length b < fuel' -> exists data, d = dst ++ data /\ chunks fuel' b = ChOk data r.
+Proof.
+  induction fuel as [|f IH]; intros max dst b pk d r pk' Hwf H fuel' Hf; cbn [rbc_loop] in H; [discriminate|].
+  destruct (parseChunkSize b) as [n r2|e] eqn:Ep; [|discriminate].
+  destruct (parseChunkSize_spec _ _ _ Hwf Ep) as (nN & cnt & r0 & Hsp & -> & Hext & Hsh).
+  assert (Hwf2 : wf_bytes r2).
+  { destruct (parseChunkSize_suffix _ _ _ Ep) as [p ->]. unfold wf_bytes in *. now apply Forall_app in Hwf. }
+  destruct fuel' as [|f']; [lia|]. cbn [chunks]. rewrite Hsp, Hext.
+  destruct (Z.eqb_spec (Z.of_N nN) 0) as [E0|E0].
+  - injection H as <- <- _. replace (nN =? 0)%N with true by lia. exists []. now rewrite app_nil_r.
+  - replace (nN =? 0)%N with false by lia.
+    destruct ((max >? 0)%Z && (blen dst + Z.of_N nN >? max)%Z); [discriminate|].
+    destruct (appendBodyFixedSize r2 dst (Z.of_N nN + blen GenC34.strCRLF) pk) as [d1 r1 pk1|e d1 pk1| |] eqn:Ea; try discriminate.
+    destruct (ends_crlf d1) eqn:Ee; [|discriminate].
+    assert (Hpos : (0 < Z.of_N nN)%Z) by lia.
+    destruct (chunk_data _ _ _ _ _ _ _ Hpos Ea Ee) as (Hk & Hdl & Hsk & Hl).
+    replace (Z.to_nat (Z.of_N nN)) with (N.to_nat nN) in * by lia.
+    replace (N.of_nat (length r2) <? nN)%N with false by lia.
+    rewrite Hsk. change CR with 13%N. change LF with 10%N. cbv iota.
+    assert (Hwf1 : wf_bytes r1).
+    { assert (Hx : wf_bytes (skipn (N.to_nat nN) r2)) by now apply wf_skipn. rewrite Hsk in Hx.
+      unfold wf_bytes in *. inversion Hx as [|? ? _ Hy]. now inversion Hy. }
+    rewrite Hdl in H. assert (Hf' : length r1 < f') by lia.
+    destruct (IH _ _ _ _ _ _ _ Hwf1 H f' Hf') as (data & -> & Hch).
+    rewrite Hch. exists (firstn (N.to_nat nN) r2 ++ data). split; [now rewrite app_assoc|reflexivity].
+Qed.
+
+Theorem readBodyChunked_rfc max b d r pk : wf_bytes b -> readBodyChunked max [] b = BOk d r pk ->
+  chunks (S (length b)) b = ChOk d r.
+Proof.
+  intros Hwf H. unfold readBodyChunked in H. change (0 <? blen [])%Z with false in H. cbv iota in H.
+  destruct (rbc_chunks _ _ _ _ _ _ _ _ Hwf H (S (length b)) (Nat.lt_succ_diag_r _)) as (data & -> & Hc). exact Hc.
 Qed.
